@@ -12,6 +12,8 @@
 #include <Eigen/IterativeLinearSolvers>
 #include <stdexcept>
 
+#include "../Util/CompInfo.h"
+
 namespace Spectra {
 
 ///
